@@ -51,6 +51,13 @@ impl Lock {
         let sc = reasm_ref::state_class(&self.m.st);
         let lc = reasm_ref::line_class(&self.m.st, n, k, id);
         let exp = self.m.expect(n, k, id, payload);
+        // fixed capacity of the no-allocator build: a continuation that would take the open
+        // group above 384 bytes must be rejected and (C17) leaves the group as it was
+        let over = mon::is_noalloc()
+            && matches!(exp, Expect::Incomplete | Expect::Complete(_) | Expect::Either(_))
+            && n != 1
+            && !(k == 1 && k < n)
+            && self.group_len() + payload.len() > 384;
         rep.eval();
         let c = self.p.parse(&line, decode);
         self.log.push((line, decode));
@@ -82,6 +89,18 @@ impl Lock {
             let log = self.log.clone();
             rep.violation(pid, sig.to_string(), format!("{} [state '{}', line class '{}', header {},{},{:?}]", why, sc, lc, n, k, id), || mon::replay_history(&log, note));
         };
+        if over {
+            rep.count("noalloc_capacity");
+            if seen != Seen::Err {
+                violated = true;
+                bad(rep, "noalloc-accepted-beyond-capacity", format!("a fragment taking the group to {} bytes (capacity 384) was accepted as {}", self.group_len() + payload.len(), out.canon()));
+                self.m.st = crate::reasm_ref::St::Ambiguous;
+            }
+            // rejected: the open group is unchanged
+            let cell = format!("{}|{}|{}", sc, "over-capacity", seen_name);
+            rep.class(cell);
+            return Step { state_class: sc, line_class: lc, seen: seen_name, violated };
+        }
         match &exp {
             Expect::Unjudged => rep.count("unjudged"),
             Expect::Reject(why) => {
